@@ -184,6 +184,10 @@ fn read_block(ch: &mut Chooser, post: bool) -> Vec<MOp> {
     }
     let size = 5 * count.max(1);
     let mut v = vec![PUSH(0), FREE];
+    if ch.chance(1, 4) {
+        // guard: a Halt that is jumped over (everything after it is still reachable)
+        v = vec![PUSH(2), PUSH(1), JMPIF, HLT, PUSH(0), FREE];
+    }
     if ext {
         let contract = if ch.chance(1, 2) { C_X } else if ch.chance(1, 2) { C_A } else { C_B };
         v.extend(crate::model::vm::bytes_to_words(&contract).into_iter().map(PUSH));
@@ -635,6 +639,85 @@ pub fn build_wide_case(choices: Vec<u32>) -> GraphCase {
         solutions,
         pre_state: MapSpec::default(),
         collect_all: ch.chance(1, 3),
+        mode: [0u8, 1, 2][ch.pick(3)],
+        raw_programs: vec![],
+    }
+}
+
+/// Joins at the concatenation limits: k roots whose output stacks / memories total limit-1, limit or limit+1
+/// at a join node (which accepts whatever it gets). Targets the bounds of the parents' concatenation.
+pub fn build_concat_case(choices: Vec<u32>) -> GraphCase {
+    let mut ch = Chooser::new(choices);
+    let k = 2 + ch.pick(3);
+    let stack_total = [4095usize, 4096, 4097, 4090, 100][ch.pick(5)];
+    let mem_total = [10239usize, 10240, 10241, 10000, 50][ch.pick(5)];
+    // the join's own prologue needs 6 stack words and 2 memory words of head-room, which it does not have at the
+    // limit; so the join is a *plain* program without the trace read
+    let mut split = |total: usize, ch: &mut Chooser| -> Vec<usize> {
+        let mut parts = vec![0usize; k];
+        let mut left = total;
+        for p in parts.iter_mut().take(k - 1) {
+            let x = ch.pick(left + 1);
+            *p = x;
+            left -= x;
+        }
+        parts[k - 1] = left;
+        parts
+    };
+    let stacks = split(stack_total, &mut ch);
+    let mems = split(mem_total, &mut ch);
+    let mut programs = Vec::new();
+    let mut nodes = Vec::new();
+    let mut edges = Vec::new();
+    // numbering: join first or last
+    let join_first = ch.chance(1, 2);
+    let join_ix = if join_first { 0 } else { k };
+    let root_ix = |i: usize| if join_first { i + 1 } else { i };
+    let mut node_slots: Vec<Option<NodeSpec>> = vec![None; k + 1];
+    for i in 0..k {
+        let ix = root_ix(i);
+        let mut p = trace_prologue(ix as u16);
+        // [zeros(s)] : RES pushes the frame start, which is popped again
+        p.extend([PUSH(stacks[i] as i64), RES, POP, PUSH(mems[i] as i64), ALOC, POP]);
+        if stacks[i] > 0 && ch.chance(1, 2) {
+            // make the contents order-sensitive
+            p.extend([PUSH(7 + i as i64), PUSH(0), STOS]);
+        }
+        node_slots[ix] = Some(NodeSpec { edge_start: 0, prog: programs.len() });
+        programs.push(p);
+    }
+    // join: plain leaf program: satisfied iff it can run at all
+    let join_prog = match ch.pick(3) {
+        0 => vec![PUSH(0), FREE, PUSH(0), RES, DROP, PUSH(1)],
+        1 => vec![PUSH(0), RES, DROP, PUSH(1)],
+        // emit the sizes it saw: [stack len, memory len] folded into satisfiability only (keeps it simple)
+        _ => vec![PUSH(0), ALOC, POP, PUSH(0), RES, DROP, PUSH(1)],
+    };
+    node_slots[join_ix] = Some(NodeSpec { edge_start: LEAF, prog: programs.len() });
+    programs.push(join_prog);
+    // edges in node order, every root -> join
+    let mut nodes_v: Vec<NodeSpec> = node_slots.into_iter().map(|n| n.unwrap()).collect();
+    for (ix, n) in nodes_v.iter_mut().enumerate() {
+        if ix != join_ix {
+            n.edge_start = edges.len() as u16;
+            edges.push(join_ix as u16);
+        } else {
+            // leaf by empty range unless it is the last node
+            n.edge_start = if ix == k { LEAF } else { edges.len() as u16 };
+        }
+    }
+    nodes.append(&mut nodes_v);
+    GraphCase {
+        programs,
+        predicates: vec![PredSpec { nodes, edges }],
+        solutions: vec![SolSpec {
+            pred: 0,
+            contract: C_A,
+            data: vec![vec![sol_tag(0)]],
+            mutations: vec![],
+        }],
+        pre_state: MapSpec::default(),
+        collect_all: ch.chance(1, 2),
         mode: [0u8, 1, 2][ch.pick(3)],
         raw_programs: vec![],
     }
